@@ -11,8 +11,13 @@
 (* Abstract layer (property C11): once unload() has returned nothing of the overlay can run any more and every    *)
 (* socket is closed (SilentAfterUnload), and nothing did run (NoLateActivity).                                    *)
 (*                                                                                                                *)
-(* The three switches describe the pinned deviations; TRUE = repaired behaviour, which is what the traces of the  *)
-(* real code are validated against (UnloadTrace.tla).                                                             *)
+(* State with history: bootstrappers (ipv8/community.py Community.bootstrap/_bootstrap/unload,                    *)
+(* bootstrapping/udpbroadcast/bootstrapper.py) - initialisations in flight, the task that awaits each of them,    *)
+(* their broadcast sockets; and exit sockets whose delayed removal (remove_exit_socket after a DESTROY or from     *)
+(* do_remove) is already scheduled when unload is requested.                                                      *)
+(*                                                                                                                *)
+(* The switches describe deviations (the first three were found in the pinned tree); TRUE = repaired behaviour,   *)
+(* which is what the traces of the real code are validated against (UnloadTrace.tla).                             *)
 EXTENDS Naturals, FiniteSets, TLC
 
 CONSTANTS Wirings,               \* subset of {"plain", "tunnel"}: socket endpoint / TunnelEndpoint around it
@@ -20,7 +25,12 @@ CONSTANTS Wirings,               \* subset of {"plain", "tunnel"}: socket endpoi
           MaxTasks, MaxCaches, MaxSocks,
           WrapperForwardsRemove, \* TunnelEndpoint.remove_listener reaches the socket endpoint's tables
           CryptoListenerRemoved, \* unload takes the PythonCryptoEndpoint prefix listener away
-          RemovalAwaited         \* unload closes circuits / exit sockets before it returns (no delayed, cancellable task)
+          RemovalAwaited,        \* unload closes circuits / exit sockets before it returns (no delayed, cancellable task)
+          MaxBoot,               \* bootstrapper initialisations / bootstrap sockets
+          InitAwaited,           \* the task that starts a bootstrapper's initialize() awaits it (Community._bootstrap):
+                                 \* cancelling the task cancels the initialisation; FALSE = left running in the background
+          UnloadRemovesPending   \* unload closes an exit socket also when a (delayed) removal of it is already scheduled;
+                                 \* FALSE = "removal already pending" makes unload's own removal a no-op
 
 VARIABLES wiring, kind,
           glob,      \* _listeners of the socket endpoint (subset of {"ov", "crypto"})
@@ -33,12 +43,19 @@ VARIABLES wiring, kind,
           socks,
           rmPending, \* pinned: sockets whose removal waits in a delayed task
           sub,       \* sub-steps of unload that were executed
-          lateAct    \* history: activity observed in phase "unloaded"
-vars == <<wiring, kind, glob, pfx, pl, link, phase, tmShut, tasks, dying, rcShut, caches, socks, rmPending, sub, lateAct>>
+          lateAct,   \* history: activity observed in phase "unloaded"
+          initing,   \* bootstrapper initialisations in flight (coroutines started with ensure_future by a task)
+          bdying,    \* ... that were cancelled together with the task awaiting them and have not ended yet
+          held,      \* <<b, t>>: initialisation b is awaited by task t of the overlay
+          bsocks     \* open sockets of the overlay's bootstrappers (UDPBroadcastBootstrapper)
+BootVars == <<initing, bdying, held, bsocks>>
+vars == <<wiring, kind, glob, pfx, pl, link, phase, tmShut, tasks, dying, rcShut, caches, socks, rmPending, sub, lateAct,
+          initing, bdying, held, bsocks>>
 
 TaskIds  == 1..MaxTasks
 CacheIds == 1..MaxCaches
 SockIds  == 1..MaxSocks
+BootIds  == 1..MaxBoot
 
 ---------------------------------------------------------------------------
 (* Endpoint listener tables as the code manipulates them; t = [glob, pfx, pl] *)
@@ -59,7 +76,7 @@ AfterTunnelInit(w)    == AddP(RemVia(w, RemVia(w, AfterCommunityInit(w), "ov"), 
 Tables  == [glob |-> glob, pfx |-> pfx, pl |-> pl]
 Targets == IF pfx THEN pl ELSE glob            \* notify_listeners for a datagram with the overlay's prefix
 Reach   == "ov" \in Targets \/ ("crypto" \in Targets /\ link)
-Alive   == Reach \/ tasks # {} \/ dying # {} \/ caches # {} \/ socks # {}
+Alive   == Reach \/ tasks # {} \/ dying # {} \/ caches # {} \/ socks # {} \/ initing # {} \/ bsocks # {}
 MayAct  == phase # "unloaded" \/ Alive          \* while loaded the application may call into the overlay as well
 
 InitFor(w, k) ==
@@ -69,6 +86,7 @@ InitFor(w, k) ==
         /\ link = (k = "tunnel")
         /\ phase = "loaded" /\ tmShut = FALSE /\ tasks = {} /\ dying = {} /\ rcShut = FALSE /\ caches = {}
         /\ socks = {} /\ rmPending = {} /\ sub = {} /\ lateAct = FALSE
+        /\ initing = {} /\ bdying = {} /\ held = {} /\ bsocks = {}
 Init == \E w \in Wirings, k \in Kinds : InitFor(w, k)
 
 Act   == lateAct' = (lateAct \/ phase = "unloaded")
@@ -81,9 +99,11 @@ Keep1 == UNCHANGED <<wiring, kind, glob, pfx, pl, link, phase, sub>>
 Handler == /\ (Reach \/ phase = "unloading") /\ Act
            /\ UNCHANGED <<wiring, kind, glob, pfx, pl, link, phase, tmShut, tasks, dying, rcShut, caches, socks,
                           rmPending, sub>>
+           /\ UNCHANGED BootVars
 Send == /\ MayAct /\ Act
         /\ UNCHANGED <<wiring, kind, glob, pfx, pl, link, phase, tmShut, tasks, dying, rcShut, caches, socks,
                        rmPending, sub>>
+        /\ UNCHANGED BootVars
 (* register_task on the overlay ("ov"), its request cache ("cache") or one of its exit sockets ("sock"): a call may  *)
 (* come at any time; it is accepted only while that manager is not shut down (and may be refused for a name in use)  *)
 Owners == {"ov", "cache", "sock"}
@@ -94,49 +114,103 @@ Register(t, own, ok) ==
                                [] own = "sock"  -> kind = "tunnel" /\ phase # "unloaded"
                    /\ tasks' = IF ok THEN tasks \cup {t} ELSE tasks
                    /\ Keep1 /\ UNCHANGED <<tmShut, dying, rcShut, caches, socks, rmPending, lateAct>>
+                   /\ UNCHANGED BootVars
 TaskStep(t) == /\ t \in tasks \cup dying /\ Act
                /\ Keep1 /\ UNCHANGED <<tmShut, tasks, dying, rcShut, caches, socks, rmPending>>
+               /\ UNCHANGED BootVars
+(* a task that awaits an initialisation it started cannot end before that initialisation has ended *)
 TaskEnd(t) == /\ t \in tasks \cup dying
+              /\ \A b \in initing : <<b, t>> \notin held
               /\ tasks' = tasks \ {t} /\ dying' = dying \ {t}
               /\ Keep1 /\ UNCHANGED <<tmShut, rcShut, caches, socks, rmPending, lateAct>>
+              /\ UNCHANGED BootVars
 CacheAdd(c, ok) == /\ kind # "basic" /\ c \notin caches
                    /\ ok => ~rcShut
                    /\ caches' = IF ok THEN caches \cup {c} ELSE caches
                    /\ Keep1 /\ UNCHANGED <<tmShut, tasks, dying, rcShut, socks, rmPending, lateAct>>
+                   /\ UNCHANGED BootVars
 CacheTimeout(c) == /\ c \in caches /\ Act
                    /\ caches' = caches \ {c}
                    /\ Keep1 /\ UNCHANGED <<tmShut, tasks, dying, rcShut, socks, rmPending>>
+                   /\ UNCHANGED BootVars
 CachePop(c) == /\ c \in caches /\ MayAct
                /\ caches' = caches \ {c}
                /\ Keep1 /\ UNCHANGED <<tmShut, tasks, dying, rcShut, socks, rmPending, lateAct>>
+               /\ UNCHANGED BootVars
 (* an exit socket opens its outside transports when a data cell for it arrives *)
 SockOpen(s) == /\ Reach /\ kind = "tunnel" /\ s \notin socks /\ Act
                /\ socks' = socks \cup {s}
                /\ Keep1 /\ UNCHANGED <<tmShut, tasks, dying, rcShut, caches, rmPending>>
+               /\ UNCHANGED BootVars
 SockClose(s) == /\ s \in socks
                 /\ socks' = socks \ {s} /\ rmPending' = rmPending \ {s}
                 /\ Keep1 /\ UNCHANGED <<tmShut, tasks, dying, rcShut, caches, lateAct>>
+                /\ UNCHANGED BootVars
 (* a datagram from the outside world arrives on an open exit socket and is tunnelled back *)
 SockIn(s) == /\ s \in socks /\ Act
              /\ Keep1 /\ UNCHANGED <<tmShut, tasks, dying, rcShut, caches, socks, rmPending>>
+             /\ UNCHANGED BootVars
+(* remove_exit_socket while the overlay is in use (DESTROY of the circuit's owner, do_remove: idle / old / traffic  *)
+(* limit): a task that sleeps remove_tunnel_delay seconds and then closes the socket (= SockClose). Requested     *)
+(* again for a socket whose removal is already pending it changes nothing.                                        *)
+RemoveSched(s) == /\ kind = "tunnel" /\ phase # "unloaded" /\ s \in socks
+                  /\ rmPending' = rmPending \cup {s}
+                  /\ Keep1 /\ UNCHANGED <<tmShut, tasks, dying, rcShut, caches, socks, lateAct>>
+                  /\ UNCHANGED BootVars
+
+---------------------------------------------------------------------------
+(* bootstrappers: Community.bootstrap registers a task per bootstrapper (_bootstrap), which starts              *)
+(* bootstrapper.initialize(overlay) with ensure_future, asks for addresses and then awaits the initialisation.  *)
+(* UDPBroadcastBootstrapper.initialize opens a broadcast socket (takes some loop iterations), beacons on it, and *)
+(* hands every datagram that arrives there to overlay.walk_to / overlay.on_packet.                               *)
+(* t = the task of the overlay (registered with its own task manager, hence ~tmShut) in whose step initialize()  *)
+(* is called                                                                                                     *)
+BootInit(b, t) == /\ phase # "unloaded" /\ ~tmShut /\ t \in tasks /\ b \notin initing \cup bdying
+                  /\ initing' = initing \cup {b}
+                  /\ held' = IF InitAwaited THEN held \cup {<<b, t>>} ELSE held
+                  /\ Keep1 /\ UNCHANGED <<tmShut, tasks, dying, rcShut, caches, socks, rmPending, lateAct, bdying, bsocks>>
+(* the initialisation opens its socket (b = 0: a socket opened by the overlay's bootstrapper outside an          *)
+(* initialisation, which it may do while the overlay is not unloaded)                                            *)
+BootOpen(b, s) == /\ b \in initing \/ (b = 0 /\ phase # "unloaded")
+                  /\ s \notin bsocks /\ Act
+                  /\ bsocks' = bsocks \cup {s}
+                  /\ Keep1 /\ UNCHANGED <<tmShut, tasks, dying, rcShut, caches, socks, rmPending, initing, bdying, held>>
+(* the initialisation ends: returned, failed, or took the CancelledError *)
+BootEnd(b) == /\ b \in initing \cup bdying
+              /\ initing' = initing \ {b} /\ bdying' = bdying \ {b}
+              /\ held' = {p \in held : p[1] # b}
+              /\ Keep1 /\ UNCHANGED <<tmShut, tasks, dying, rcShut, caches, socks, rmPending, lateAct, bsocks>>
+BootClose(s) == /\ s \in bsocks
+                /\ bsocks' = bsocks \ {s}
+                /\ Keep1 /\ UNCHANGED <<tmShut, tasks, dying, rcShut, caches, socks, rmPending, lateAct, initing, bdying, held>>
+(* a datagram arrives on an open bootstrap socket: the overlay walks to its source / handles the packet *)
+BootIn(s) == /\ s \in bsocks /\ Act
+             /\ Keep1 /\ UNCHANGED <<tmShut, tasks, dying, rcShut, caches, socks, rmPending>>
+             /\ UNCHANGED BootVars
 
 ---------------------------------------------------------------------------
 (* unload(); the sub-steps may come in any order, U_Done needs all of them *)
 UnloadStart == /\ phase = "loaded" /\ phase' = "unloading"
                /\ UNCHANGED <<wiring, kind, glob, pfx, pl, link, tmShut, tasks, dying, rcShut, caches, socks,
                               rmPending, sub, lateAct>>
+               /\ UNCHANGED BootVars
 (* TunnelCommunity.unload: remove_circuit / remove_relay / remove_exit_socket(remove_now=True).               *)
 (* Repaired: the overlay stops listening first (no new exit socket can appear), then closes what exists and   *)
-(* waits for that. Pinned: done first, by delayed tasks which the task manager shutdown cancels.               *)
+(* waits for that - whether or not a removal of the socket was scheduled before. Pinned: done first, by       *)
+(* delayed tasks which the task manager shutdown cancels. ~UnloadRemovesPending: sockets with a scheduled     *)
+(* removal are left to that (sleeping, cancellable) task.                                                      *)
 U_Tunnels == /\ phase = "unloading" /\ kind = "tunnel" /\ "tunnels" \notin sub
              /\ RemovalAwaited => "listener" \in sub
              /\ sub' = sub \cup {"tunnels"}
-             /\ IF RemovalAwaited THEN socks' = {} /\ rmPending' = {}
-                ELSE socks' = socks /\ rmPending' = socks      \* sleeping remove_* tasks own the closing
+             /\ IF ~RemovalAwaited THEN socks' = socks /\ rmPending' = socks      \* sleeping remove_* tasks own the closing
+                ELSE IF UnloadRemovesPending THEN socks' = {} /\ rmPending' = {}
+                ELSE socks' = socks \cap rmPending /\ rmPending' = rmPending
              /\ UNCHANGED <<wiring, kind, glob, pfx, pl, link, phase, tmShut, tasks, dying, rcShut, caches, lateAct>>
+             /\ UNCHANGED BootVars
 U_Cache == /\ phase = "unloading" /\ kind # "basic"
            /\ sub' = sub \cup {"cache"} /\ rcShut' = TRUE /\ caches' = {}
            /\ UNCHANGED <<wiring, kind, glob, pfx, pl, link, phase, tmShut, tasks, dying, socks, rmPending, lateAct>>
+           /\ UNCHANGED BootVars
 U_Listener == /\ phase = "unloading"
               /\ sub' = sub \cup {"listener"}
               /\ LET t1 == RemVia(wiring, Tables, "ov")
@@ -144,17 +218,29 @@ U_Listener == /\ phase = "unloading"
                  IN glob' = t2.glob /\ pfx' = t2.pfx /\ pl' = t2.pl
               /\ link' = IF CryptoListenerRemoved THEN FALSE ELSE link
               /\ UNCHANGED <<wiring, kind, phase, tmShut, tasks, dying, rcShut, caches, socks, rmPending, lateAct>>
-(* shutdown_task_manager: flag, cancel everything; the cancelled tasks (incl. pending removals) die *)
+              /\ UNCHANGED BootVars
+(* shutdown_task_manager: flag, cancel everything; the cancelled tasks (incl. pending removals) die, and with *)
+(* them the initialisations they await                                                                        *)
 U_Tasks == /\ phase = "unloading"
            /\ sub' = sub \cup {"tasks"} /\ tmShut' = TRUE
            /\ dying' = dying \cup tasks /\ tasks' = {} /\ rmPending' = {}
-           /\ UNCHANGED <<wiring, kind, glob, pfx, pl, link, phase, rcShut, caches, socks, lateAct>>
-Needed == {"listener", "tasks"} \cup (IF kind # "basic" THEN {"cache"} ELSE {}) \cup
+           /\ LET killed == {b \in initing : \E t \in tasks \cup dying : <<b, t>> \in held}
+              IN initing' = initing \ killed /\ bdying' = bdying \cup killed
+           /\ UNCHANGED <<wiring, kind, glob, pfx, pl, link, phase, rcShut, caches, socks, lateAct, held, bsocks>>
+(* Community.unload: bootstrapper.unload() closes the sockets of the initialised bootstrappers. In the code this, *)
+(* the listener removal and the cancellation of the tasks happen without an await in between (one atomic step);  *)
+(* the specification serialises that step as cancel-then-close.                                                   *)
+U_Boot == /\ phase = "unloading" /\ "tasks" \in sub
+          /\ sub' = sub \cup {"boot"} /\ bsocks' = {}
+          /\ UNCHANGED <<wiring, kind, glob, pfx, pl, link, phase, tmShut, tasks, dying, rcShut, caches, socks, rmPending,
+                         lateAct, initing, bdying, held>>
+Needed == {"listener", "tasks", "boot"} \cup (IF kind # "basic" THEN {"cache"} ELSE {}) \cup
           (IF kind = "tunnel" THEN {"tunnels"} ELSE {})
 U_Done == /\ phase = "unloading" /\ Needed \subseteq sub /\ dying = {} /\ tasks = {}
           /\ phase' = "unloaded"
           /\ UNCHANGED <<wiring, kind, glob, pfx, pl, link, tmShut, tasks, dying, rcShut, caches, socks, rmPending,
                          sub, lateAct>>
+          /\ UNCHANGED BootVars
 
 Next == \/ Handler \/ Send
         \/ \E t \in TaskIds, own \in Owners, ok \in BOOLEAN : Register(t, own, ok)
@@ -166,14 +252,22 @@ Next == \/ Handler \/ Send
         \/ \E s \in SockIds : SockOpen(s)
         \/ \E s \in SockIds : SockClose(s)
         \/ \E s \in SockIds : SockIn(s)
-        \/ UnloadStart \/ U_Tunnels \/ U_Cache \/ U_Listener \/ U_Tasks \/ U_Done
+        \/ \E s \in SockIds : RemoveSched(s)
+        \/ \E b \in BootIds, t \in TaskIds : BootInit(b, t)
+        \/ \E b \in BootIds, s \in BootIds : BootOpen(b, s)
+        \/ \E b \in BootIds : BootEnd(b)
+        \/ \E s \in BootIds : BootClose(s)
+        \/ \E s \in BootIds : BootIn(s)
+        \/ UnloadStart \/ U_Tunnels \/ U_Cache \/ U_Listener \/ U_Tasks \/ U_Boot \/ U_Done
 
 Spec == Init /\ [][Next]_vars
 
 ---------------------------------------------------------------------------
 TypeOK == /\ phase \in {"loaded", "unloading", "unloaded"} /\ glob \subseteq {"ov", "crypto"} /\ pl \subseteq {"ov", "crypto"}
           /\ tasks \subseteq TaskIds /\ dying \subseteq TaskIds /\ caches \subseteq CacheIds /\ socks \subseteq SockIds
-          /\ tasks \cap dying = {}
+          /\ tasks \cap dying = {} /\ rmPending \subseteq SockIds
+          /\ initing \subseteq BootIds /\ bdying \subseteq BootIds /\ bsocks \subseteq BootIds /\ initing \cap bdying = {}
+          /\ held \subseteq BootIds \X TaskIds
 
 (* a loaded overlay does receive its datagrams (otherwise the model would be trivially silent) *)
 LoadedReachable == phase = "loaded" => Reach
@@ -183,5 +277,9 @@ SilentAfterUnload == phase = "unloaded" => (~Alive /\ socks = {} /\ tmShut /\ (k
 NoLateActivity == ~lateAct
 
 (* accepts no new task *)
-NoNewTaskAfterUnload == [][phase = "unloaded" => (tasks' = tasks /\ caches' = caches /\ socks' = socks)]_vars
+NoNewTaskAfterUnload == [][phase = "unloaded" => (tasks' = tasks /\ caches' = caches /\ socks' = socks /\ bsocks' = bsocks
+                                                  /\ initing' = initing)]_vars
+
+(* an initialisation in flight is awaited by a task of the overlay that is still there (repaired behaviour) *)
+JobsHeld == InitAwaited => \A b \in initing : \E t \in tasks \cup dying : <<b, t>> \in held
 =============================================================================
